@@ -119,6 +119,13 @@ theorem deadlock_free {s : State} (h : Reachable s)
   rw [hstuck a ⟨p, ha⟩] at hen
   simp at hen
 
+/-- **Every run ends, and ends well**: a schedule from a reachable state that cannot be extended by any worker /
+reader / consumer action has ended in a final state — and by `schedules_are_finite` every schedule can be extended
+only `measure s` times. -/
+theorem maximal_run_is_final {s t : State} {sched : List Action} (h : Reachable s) (hr : run s sched = some t)
+    (hmax : ∀ a, (∃ p, a.isWorker = true ∨ a.ofPipe p = true) → step t a = none) : t.final :=
+  deadlock_free (reachable_run h hr) hmax
+
 /-- the consumer's two reads of the shared variable `linesRead`: the check after a batch (evaluated only when
 `fileReaderIsDone`), and the check in the `done` branch (after a nil error was received) -/
 def ReadsLinesRead (s : State) (a : Action) (p : Nat) : Prop :=
